@@ -743,6 +743,10 @@ impl fmt::Display for Constraint {
             format!("{}: ", self.name)
         };
         if self.is_logic_assertion {
+            // a bare constant is asserted as a boolean literal
+            if matches!(&self.lhs, Exp::Number(value) if *value == 0.0 || *value == 1.0) {
+                return write!(f, "{}{}", name, logic_operand_to_string(&self.lhs));
+            }
             write!(f, "{}{}", name, self.lhs)
         } else {
             write!(
